@@ -1504,20 +1504,6 @@ Qed.
 (* ------------------------------------------------------------------------------------------- *)
 (* the required default instances                                                                *)
 (* ------------------------------------------------------------------------------------------- *)
-Definition complete (sch : schema) (s : sid) (D : list dnode) : bool :=
-  match kind_of sch s with
-  | KLeaf => match si_dflts (sget sch s) with
-             | v :: _ => match D with [x] => beq_bytes (d_val x) v && is_nil (d_ch x) | _ => false end
-             | [] => false
-             end
-  | KLeafList => match si_dflts (sget sch s) with
-                 | [] => false
-                 | vs => same_vals (map d_val D) vs && forallb (fun x => is_nil (d_ch x)) D
-                 end
-  | KCont false => match D with [_] => true | _ => false end
-  | _ => false
-  end.
-
 Lemma norm_snode_alt sch g s :
   norm_snode sch g s =
   if has_default sch s && (is_nil (filter (is_expl_of s) g) && active sch g s)
@@ -1553,13 +1539,15 @@ Section Impl.
   Variable path : list pstep.
   Variable p : option sid.
   Variable E : forest.                       (* the explicit siblings *)
+  Variable g0 : forest.                      (* the siblings lyd_new_implicit starts from *)
   Hypothesis Hk : chc_okb sch = true.
   Hypothesis HEcases : cases_okb sch E = true.
 
   Record Inv (g : forest) : Prop := {
     i_expl : filter expl g = E;
     i_dflt : forall n, In n g -> d_dflt n = true ->
-             In (d_sid n) (schildren sch p) /\ active sch g (d_sid n) = true /\ d_new n = false /\ d_ch n = [];
+             In (d_sid n) (schildren sch p) /\ active sch g (d_sid n) = true /\ d_new n = false /\
+             (In n g0 \/ d_ch n = []);
     i_comp : forall s, filter (is_dflt_of s) g = [] \/
                        (has_sid E s = false /\ has_default sch s = true /\ complete sch s (filter (is_dflt_of s) g) = true)
   }.
@@ -1617,7 +1605,7 @@ Section Impl.
     - rewrite (H1 expl (fun v => eq_refl)). exact I1.
     - intros n Hn Hdn. apply H4 in Hn. destruct Hn as [Hn|[v [_ ->]]].
       + destruct (I2 n Hn Hdn) as [A [B [C D]]]. repeat split; [exact A|rewrite Hact; exact B|exact C|exact D].
-      + repeat split; [exact Hs|rewrite Hact; exact Ha].
+      + split; [exact Hs|]. split; [rewrite Hact; exact Ha|]. split; [reflexivity|right; reflexivity].
     - intro s'. destruct (N.eq_dec s' s) as [->|Hne].
       + right. split; [rewrite <- I1; apply has_sid_filter_expl; exact Hh|]. split; [exact Hd|].
         assert (E0 : filter (is_dflt_of s) g = []) by (apply (has_sid_false_filter g s d_dflt Hh)).
@@ -1947,7 +1935,7 @@ Section Impl.
         { unfold level_cond. rewrite (existsb_expl _ (fst s0)), (existsb_expl _ (fst s0)), (i_expl (fst s0) HIs).
           rewrite !(existsb_expl _ E) in Hlc.
           assert (EE : filter expl E = E).
-          { rewrite <- (i_expl (fst s0) HIs). generalize (fst s0). intro g0. induction g0 as [|n g0 IHg]; cbn [filter]; [reflexivity|].
+          { rewrite <- (i_expl (fst s0) HIs). generalize (fst s0). intro gg. induction gg as [|n gg IHg]; cbn [filter]; [reflexivity|].
             destruct (expl n) eqn:En; cbn [filter]; [rewrite En, IHg; reflexivity|exact IHg]. }
           rewrite EE in Hlc. exact Hlc. }
         specialize (Hdec Hlc0).
@@ -2080,17 +2068,17 @@ Lemma implicit_normal_form sch path p E acc r :
   (forall n, In n E -> d_new n = false) -> (forall n, In n E -> In (d_sid n) (schildren sch p)) ->
   (forall n, In n E -> d_dflt n = false) ->
   implicit (cfuel sch) sch false path p [] (E, acc) = Ok r ->
-  norm_level sch p (fst r) = true /\ Inv sch p E (fst r).
+  norm_level sch p (fst r) = true /\ Inv sch p E E (fst r).
 Proof.
   intros Hk Hc Hn Hs He H.
-  pose proof (Inv_init sch p E He) as HI0.
-  destruct (implicit_inv sch path p E Hk (cfuel sch) [] (E, acc) r (fun x (Hx : In x []) => match Hx with end) HI0 eq_refl H) as [HI _].
+  pose proof (Inv_init sch p E E He) as HI0.
+  destruct (implicit_inv sch path p E E Hk (cfuel sch) [] (E, acc) r (fun x (Hx : In x []) => match Hx with end) HI0 eq_refl H) as [HI _].
   split; [|exact HI].
-  apply (Inv_norm_level sch p E Hk Hc Hn Hs); [exact HI|].
+  apply (Inv_norm_level sch p E E Hk Hc Hn Hs); [exact HI|].
   intros s Hss Hd Ha.
-  apply (implicit_complete sch path p E Hk Hc (cfuel sch) [] (E, acc) r s (chainf sch s)
+  apply (implicit_complete sch path p E E Hk Hc (cfuel sch) [] (E, acc) r s (chainf sch s)
            (fun x (Hx : In x []) => match Hx with end) HI0 eq_refl H Hss eq_refl); [|exact Hd].
-  unfold active in Ha. rewrite (active_from_Inv sch p E (fst r) HI) in Ha. exact Ha.
+  unfold active in Ha. rewrite (active_from_Inv sch p E E (fst r) HI) in Ha. exact Ha.
 Qed.
 
 (* ------------------------------------------------------------------------------------------- *)
@@ -2528,12 +2516,13 @@ Section LevelFresh.
         destruct n as [s v d m ch]. cbn [set_ch d_sid d_ch] in *. rewrite normal_node_unfold, Hi.
         destruct d.
         * (* created default container: no children before *)
-          destruct (i_dflt sch p E (fst st2) HI _ Hn eq_refl) as [_ [_ [_ Hch]]]. cbn [d_ch] in Hch. subst ch.
+          destruct (i_dflt sch p E E (fst st2) HI _ Hn eq_refl) as [_ [_ [_ [HinE|Hch]]]];
+            [pose proof (HEe _ HinE) as Hx; cbn [d_dflt] in Hx; discriminate|]. cbn [d_ch] in Hch. subst ch.
           destruct (IH _ _ _ _ (CanonAt_nil sch (Some s)) eq_refl Hc) as [A [B [_ [D _]]]].
           rewrite A, B, (D eq_refl). destruct (is_np_cont sch s); reflexivity.
         * (* explicit node: from the input *)
           assert (HnE : In (DN s v false m ch) E).
-          { rewrite <- (i_expl sch p E (fst st2) HI). apply filter_In. split; [exact Hn|reflexivity]. }
+          { rewrite <- (i_expl sch p E E (fst st2) HI). apply filter_In. split; [exact Hn|reflexivity]. }
           apply in_map_iff in HnE. destruct HnE as [n0 [En0 Hn0]].
           pose proof (Hfresh n0 Hn0) as Hf0. destruct n0 as [s0 v0 d0 m0 ch0]. cbn [clr_new] in En0. inversion En0; subst s0 v0 d0 ch0.
           rewrite fresh_node_unfold in Hf0.
@@ -2547,8 +2536,9 @@ Section LevelFresh.
       + (* terminal node *)
         assert (Hch : d_ch n = []).
         { destruct (d_dflt n) eqn:Ed.
-          - apply (i_dflt sch p E (fst st2) HI n Hn Ed).
-          - assert (HnE : In n E) by (rewrite <- (i_expl sch p E (fst st2) HI); apply filter_In; split; [exact Hn|unfold expl; rewrite Ed; reflexivity]).
+          - destruct (i_dflt sch p E E (fst st2) HI n Hn Ed) as [_ [_ [_ [HinE|Hch]]]]; [|exact Hch].
+            rewrite (HEe _ HinE) in Ed. discriminate.
+          - assert (HnE : In n E) by (rewrite <- (i_expl sch p E E (fst st2) HI); apply filter_In; split; [exact Hn|unfold expl; rewrite Ed; reflexivity]).
             apply in_map_iff in HnE. destruct HnE as [n0 [<- Hn0]]. destruct (clr_new_fields n0) as [E1 [_ [_ E4]]].
             rewrite E4. rewrite E1 in Hi. apply (canon_term_nochild sch p n0 (CanonAt_In sch p f n0 Hcan Hn0) Hi). }
         destruct n as [s v d m ch]. cbn [d_ch d_sid] in *. subst ch. rewrite normal_node_unfold, Hi. cbn [forallb].
@@ -2558,9 +2548,9 @@ Section LevelFresh.
       rewrite Hex, Hfa. split; [|split].
       + intro Hne. destruct f as [|n0 f0]; [contradiction|]. apply existsb_exists. exists (clr_new n0).
         assert (HinE : In (clr_new n0) E) by (left; reflexivity).
-        rewrite <- (i_expl sch p E (fst st2) HI) in HinE. apply filter_In in HinE. exact HinE.
+        rewrite <- (i_expl sch p E E (fst st2) HI) in HinE. apply filter_In in HinE. exact HinE.
       + intro Hnil. subst f. apply forallb_forall. intros n Hn. destruct (d_dflt n) eqn:Ed; [reflexivity|exfalso].
-        assert (HinE : In n E) by (rewrite <- (i_expl sch p E (fst st2) HI); apply filter_In; split; [exact Hn|unfold expl; rewrite Ed; reflexivity]).
+        assert (HinE : In n E) by (rewrite <- (i_expl sch p E E (fst st2) HI); apply filter_In; split; [exact Hn|unfold expl; rewrite Ed; reflexivity]).
         destruct HinE.
       + (* the explicit content *)
         rewrite !strip_filter.
@@ -2568,7 +2558,7 @@ Section LevelFresh.
                           exists c, level fuel true false sch (path ++ [step_of sch n]) (Some (d_sid n)) (d_ch n) = Ok c /\ n' = set_ch n (fst c)) \/
                          (is_inner sch (d_sid n) = false /\ n' = n)) (filter expl (fst st2)) (filter expl (fst r))).
         { apply Forall2_filter; [exact HF2|]. intros x y [[_ [c [_ ->]]]|[_ ->]]; [destruct x; reflexivity|reflexivity]. }
-        rewrite (i_expl sch p E (fst st2) HI) in HF3. unfold E in HF3. apply Forall2_map_l in HF3.
+        rewrite (i_expl sch p E E (fst st2) HI) in HF3. unfold E in HF3. apply Forall2_map_l in HF3.
         assert (Hfe : filter expl f = f) by (apply filter_id; intros n Hn; unfold expl; rewrite (Hexp n Hn); reflexivity).
         rewrite Hfe. symmetry.
         apply (Forall2_map_eq_in _ strip_node strip_node _ _ HF3).
@@ -2597,6 +2587,915 @@ Proof.
     apply (map_res_id (final_node sch)); [|exact Hfin].
     rewrite forallb_forall in B. apply Forall_forall. intros x Hx y Hy. apply (final_node_normal sch x y Hy (B x Hx)). }
   subst g. split; [unfold normalb; rewrite A, B; reflexivity|exact S].
+Qed.
+
+(* ------------------------------------------------------------------------------------------- *)
+(* lyd_validate_choice_r on ANY sibling list: what a successful run leaves                       *)
+(* ------------------------------------------------------------------------------------------- *)
+Lemma filter_filter {A} (q1 q2 : A -> bool) l : filter q2 (filter q1 l) = filter (fun x => q1 x && q2 x) l.
+Proof.
+  induction l as [|x l IH]; cbn [filter]; [reflexivity|].
+  destruct (q1 x); cbn [filter andb]; [destruct (q2 x); rewrite IH; reflexivity|exact IH].
+Qed.
+
+Section ChoiceGen.
+  Variable sch : schema.
+  Variable path : list pstep.
+  Variable p : option sid.
+
+  (* what the scan over the cases returns *)
+  Lemma cases_scan_char pre c f : forall ks old new o n,
+    cases_scan sch pre c f ks old new = Ok (o, n) ->
+    match old with
+    | Some x => o = Some x /\ (forall k, In k ks -> case_found sch pre c k f <> FOld)
+    | None => forall k, In k ks -> case_found sch pre c k f = FOld -> o = Some k
+    end /\
+    match new with
+    | Some x => n = Some x /\ (forall k, In k ks -> case_found sch pre c k f <> FNew)
+    | None => forall k, In k ks -> case_found sch pre c k f = FNew -> n = Some k
+    end.
+  Proof.
+    induction ks as [|k ks IH]; intros old new o n H; cbn [cases_scan] in H.
+    - inversion H; subst. split; [destruct o|destruct n]; try (split; [reflexivity|intros k []]); intros k [].
+    - destruct (case_found sch pre c k f) eqn:Ef.
+      + destruct (IH _ _ _ _ H) as [H1 H2]. split.
+        * destruct old; [destruct H1 as [H1 H1']; split; [exact H1|intros k' [<-|Hk']; [congruence|apply H1', Hk']]|].
+          intros k' [<-|Hk'] Hf; [congruence|apply (H1 k' Hk' Hf)].
+        * destruct new; [destruct H2 as [H2 H2']; split; [exact H2|intros k' [<-|Hk']; [congruence|apply H2', Hk']]|].
+          intros k' [<-|Hk'] Hf; [congruence|apply (H2 k' Hk' Hf)].
+      + destruct old; [discriminate|]. destruct (IH _ _ _ _ H) as [[H1 H1'] H2]. split.
+        * intros k' [<-|Hk'] Hf; [exact H1|]. exfalso. apply (H1' k' Hk' Hf).
+        * destruct new; [destruct H2 as [H2 H2']; split; [exact H2|intros k' [<-|Hk']; [congruence|apply H2', Hk']]|].
+          intros k' [<-|Hk'] Hf; [congruence|apply (H2 k' Hk' Hf)].
+      + destruct new; [discriminate|]. destruct (IH _ _ _ _ H) as [H1 [H2 H2']]. split.
+        * destruct old; [destruct H1 as [H1 H1'']; split; [exact H1|intros k' [<-|Hk']; [congruence|apply H1'', Hk']]|].
+          intros k' [<-|Hk'] Hf; [congruence|apply (H1 k' Hk' Hf)].
+        * intros k' [<-|Hk'] Hf; [exact H2|]. exfalso. apply (H2' k' Hk' Hf).
+  Qed.
+
+  Lemma cases_scan_orig pre c f : forall ks old new o n,
+    cases_scan sch pre c f ks old new = Ok (o, n) ->
+    (o = old \/ exists k, In k ks /\ o = Some k /\ case_found sch pre c k f = FOld) /\
+    (n = new \/ exists k, In k ks /\ n = Some k /\ case_found sch pre c k f = FNew).
+  Proof.
+    assert (Hw : forall (k : N) ks (F : found) (x : option N),
+               (exists k', In k' ks /\ x = Some k' /\ case_found sch pre c k' f = F) ->
+               exists k', In k' (k :: ks) /\ x = Some k' /\ case_found sch pre c k' f = F).
+    { intros k ks F x [k' [A [B C]]]. exists k'. split; [right; exact A|split; assumption]. }
+    induction ks as [|k ks IH]; intros old new o n H; cbn [cases_scan] in H.
+    - inversion H; subst. split; left; reflexivity.
+    - destruct (case_found sch pre c k f) eqn:Ef.
+      + destruct (IH _ _ _ _ H) as [H1 H2]. split.
+        * destruct H1 as [H1|H1]; [left; exact H1|right; apply Hw; exact H1].
+        * destruct H2 as [H2|H2]; [left; exact H2|right; apply Hw; exact H2].
+      + destruct old; [discriminate|]. destruct (IH _ _ _ _ H) as [H1 H2]. split.
+        * right. destruct H1 as [H1|H1]; [exists k; split; [left; reflexivity|split; [exact H1|exact Ef]]|apply Hw; exact H1].
+        * destruct H2 as [H2|H2]; [left; exact H2|right; apply Hw; exact H2].
+      + destruct new; [discriminate|]. destruct (IH _ _ _ _ H) as [H1 H2]. split.
+        * destruct H1 as [H1|H1]; [left; exact H1|right; apply Hw; exact H1].
+        * right. destruct H2 as [H2|H2]; [exists k; split; [left; reflexivity|split; [exact H2|exact Ef]]|apply Hw; exact H2].
+  Qed.
+
+  Lemma case_found_new_node pre c k f : case_found sch pre c k f = FNew -> exists x, In x f /\ d_new x = true.
+  Proof.
+    unfold case_found. destruct (existsb d_new (filter (in_case sch pre c k) f)) eqn:E.
+    - intros _. apply existsb_exists in E. destruct E as [x [Hx Hn]]. apply filter_In in Hx. exists x. split; [apply Hx|exact Hn].
+    - destruct (filter (in_case sch pre c k) f); discriminate.
+  Qed.
+
+  Definition sid_in_case (pre : list cc) (c k : N) (s : sid) : bool :=
+    match s_case sch pre c s with Some k' => k' =? k | None => false end.
+
+  Lemma in_case_sid pre c k n : in_case sch pre c k n = sid_in_case pre c k (d_sid n).
+  Proof. reflexivity. Qed.
+
+  (* validate_cases keeps the nodes whose schema node passes a test; new nodes always pass *)
+  Lemma validate_cases_form pre c f r : validate_cases sch path p pre c f = Ok r ->
+    exists q : sid -> bool, fst r = filter (fun n => q (d_sid n)) f /\
+                            (forall n, In n f -> d_new n = true -> q (d_sid n) = true) /\
+                            ((forall n, In n f -> d_new n = false) -> forall s, q s = true).
+  Proof.
+    intro H. unfold validate_cases in H. apply bind_ok in H. destruct H as [[o n] [Hs H]].
+    destruct (cases_scan_char pre c f _ None None o n Hs) as [Ho Hn].
+    assert (Hid : exists q : sid -> bool, f = filter (fun n => q (d_sid n)) f /\
+                      (forall n, In n f -> d_new n = true -> q (d_sid n) = true) /\
+                      ((forall n, In n f -> d_new n = false) -> forall s, q s = true)).
+    { exists (fun _ => true). split; [symmetry; apply filter_id; reflexivity|split; reflexivity]. }
+    destruct o as [ko|]; [destruct n as [kn|]|]; inversion H; subst; cbn [fst]; try exact Hid.
+    exists (fun s => negb (sid_in_case pre c ko s)). split; [reflexivity|]. split.
+    - (* the old case holds no new node *)
+      intros x Hx Hnew. apply negb_true_iff. destruct (sid_in_case pre c ko (d_sid x)) eqn:E; [exfalso|reflexivity].
+      assert (Hf : case_found sch pre c ko f = FNew).
+      { unfold case_found.
+        assert (Hin : In x (filter (in_case sch pre c ko) f)) by (apply filter_In; split; [exact Hx|rewrite in_case_sid; exact E]).
+        assert (Ee : existsb d_new (filter (in_case sch pre c ko) f) = true) by (apply existsb_exists; exists x; split; assumption).
+        rewrite Ee. reflexivity. }
+      destruct (cases_scan_orig pre c f _ None None _ _ Hs) as [[Ho1|[k1 [_ [Ek Hk1]]]] _]; [discriminate|].
+      inversion Ek; subst k1. congruence.
+    - (* no new node at all: no case is new *)
+      intros Hnn. exfalso.
+      destruct (cases_scan_orig pre c f _ None None _ _ Hs) as [_ [Hn1|[k2 [_ [_ Hk2]]]]]; [discriminate|].
+      destruct (case_found_new_node _ _ _ _ Hk2) as [x [Hx Hxn]]. rewrite (Hnn x Hx) in Hxn. discriminate.
+  Qed.
+
+  Definition FiltOf (l0 l : forest) : Prop :=
+    exists q : sid -> bool, l = filter (fun n => q (d_sid n)) l0 /\
+                            (forall n, In n l0 -> d_new n = true -> q (d_sid n) = true) /\
+                            ((forall n, In n l0 -> d_new n = false) -> forall s, q s = true).
+
+  Lemma FiltOf_refl l : FiltOf l l.
+  Proof. exists (fun _ => true). split; [symmetry; apply filter_id; reflexivity|split; reflexivity]. Qed.
+
+  Lemma FiltOf_trans l0 l1 l2 : FiltOf l0 l1 -> FiltOf l1 l2 -> FiltOf l0 l2.
+  Proof.
+    intros [q1 [E1 [N1 A1]]] [q2 [E2 [N2 A2]]]. exists (fun s => q1 s && q2 s). split; [|split].
+    - rewrite E2, E1, filter_filter. reflexivity.
+    - intros n Hn Hnew. rewrite (N1 n Hn Hnew). cbn [andb]. apply N2; [|exact Hnew].
+      rewrite E1. apply filter_In. split; [exact Hn|apply N1; assumption].
+    - intros Hnn s. rewrite (A1 Hnn s). cbn [andb]. apply A2. intros n Hn. rewrite E1 in Hn. apply filter_In in Hn. apply Hnn, Hn.
+  Qed.
+
+  Lemma FiltOf_incl l0 l x : FiltOf l0 l -> In x l -> In x l0.
+  Proof. intros [q [E _]] Hx. rewrite E in Hx. apply filter_In in Hx. apply Hx. Qed.
+
+  Lemma choice_r_form : forall fuel pre st r, choice_r fuel sch path p pre st = Ok r -> FiltOf (fst st) (fst r).
+  Proof.
+    induction fuel as [|fuel IH]; intros pre st r H; cbn [choice_r] in H; [discriminate|].
+    apply (fold_res_inv _ (fun s => FiltOf (fst st) (fst s)) _) with (s := st) (r := r) in H; [exact H| |apply FiltOf_refl].
+    intros s c r' _ Hs Hc. apply bind_ok in Hc. destruct Hc as [a [Ha Hc]].
+    apply validate_cases_form in Ha.
+    apply (fold_res_inv _ (fun s' => FiltOf (fst st) (fst s')) _) with (s := (fst a, snd s ++ snd a)) (r := r') in Hc;
+      [exact Hc| |cbn [fst]; apply (FiltOf_trans _ _ _ Hs Ha)].
+    intros s'' k r'' _ Hs'' Hk. apply (FiltOf_trans _ _ _ Hs'' (IH _ _ _ Hk)).
+  Qed.
+
+  (* after a successful lyd_validate_cases the nodes of the choice lie in one case *)
+  Lemma validate_cases_one_case pre c f r : validate_cases sch path p pre c f = Ok r ->
+    (forall n, In n f -> In (d_sid n) (schildren sch p)) ->
+    forall a b, In a (fst r) -> In b (fst r) -> forall ka kb,
+    n_case sch pre c a = Some ka -> n_case sch pre c b = Some kb -> ka = kb.
+  Proof.
+    intros H Hsids a b Ha Hb ka kb Hka Hkb.
+    pose proof (validate_cases_form _ _ _ _ H) as HF.
+    pose proof (FiltOf_incl _ _ a HF Ha) as Haf. pose proof (FiltOf_incl _ _ b HF Hb) as Hbf.
+    unfold validate_cases in H. apply bind_ok in H. destruct H as [[o n] [Hs H]].
+    destruct (cases_scan_char pre c f _ None None o n Hs) as [Ho Hn].
+    assert (Hin : forall x k, In x f -> n_case sch pre c x = Some k -> In k (cases_of sch p pre c) /\ in_case sch pre c k x = true).
+    { intros x k Hx Hk. split.
+      - unfold cases_of. apply In_nodupN. apply filter_map_In. exists (d_sid x). split; [apply Hsids, Hx|exact Hk].
+      - unfold in_case. rewrite Hk. apply N.eqb_refl. }
+    destruct (Hin a ka Haf Hka) as [Hka1 Hka2]. destruct (Hin b kb Hbf Hkb) as [Hkb1 Hkb2].
+    assert (Hfound : forall x k, In x f -> in_case sch pre c k x = true -> case_found sch pre c k f <> FNone).
+    { intros x k Hx Hc. unfold case_found.
+      assert (Hi : In x (filter (in_case sch pre c k) f)) by (apply filter_In; split; assumption).
+      destruct (existsb d_new (filter (in_case sch pre c k) f)); [discriminate|].
+      destruct (filter (in_case sch pre c k) f); [destruct Hi|discriminate]. }
+    pose proof (Hfound a ka Haf Hka2) as Fa. pose proof (Hfound b kb Hbf Hkb2) as Fb.
+    destruct (case_found sch pre c ka f) eqn:Ea; [contradiction| |]; destruct (case_found sch pre c kb f) eqn:Eb; try contradiction.
+    - pose proof (Ho ka Hka1 Ea). pose proof (Ho kb Hkb1 Eb). congruence.
+    - (* ka old, kb new: the nodes of ka were deleted *)
+      pose proof (Ho ka Hka1 Ea) as Eo. pose proof (Hn kb Hkb1 Eb) as En. subst o n. inversion H; subst r. cbn [fst] in Ha.
+      apply filter_In in Ha. destruct Ha as [_ Ha]. rewrite Hka2 in Ha. discriminate.
+    - pose proof (Hn ka Hka1 Ea) as En. pose proof (Ho kb Hkb1 Eb) as Eo. subst o n. inversion H; subst r. cbn [fst] in Hb.
+      apply filter_In in Hb. destruct Hb as [_ Hb]. rewrite Hkb2 in Hb. discriminate.
+    - pose proof (Hn ka Hka1 Ea). pose proof (Hn kb Hkb1 Eb). congruence.
+  Qed.
+End ChoiceGen.
+
+Lemma fold_res_mid {A S} (f : S -> A -> res S) (le : S -> S -> Prop) :
+  (forall s, le s s) -> (forall a b c, le a b -> le b c -> le a c) ->
+  (forall s x s', f s x = Ok s' -> le s' s) ->
+  forall l c st r, In c l -> fold_res f l st = Ok r -> exists s1 s2, le s1 st /\ f s1 c = Ok s2 /\ le r s2.
+Proof.
+  intros Hrefl Htrans Hstep. induction l as [|x l IH]; intros c st r Hc H; [destruct Hc|]. cbn [fold_res] in H.
+  apply bind_ok in H. destruct H as [s' [Hx H]].
+  assert (Hrest : le r s').
+  { clear -Hrefl Htrans Hstep H. revert s' H. induction l as [|y l IHl]; intros s' H; cbn [fold_res] in H.
+    - inversion H; subst. apply Hrefl.
+    - apply bind_ok in H. destruct H as [s'' [Hy H]]. apply (Htrans _ s'' _ (IHl _ H) (Hstep _ _ _ Hy)). }
+  destruct Hc as [->|Hc].
+  - exists st, s'. split; [apply Hrefl|split; [exact Hx|exact Hrest]].
+  - destruct (IH c s' r Hc H) as [s1 [s2 [H1 [H2 H3]]]]. exists s1, s2. split; [apply (Htrans _ _ _ H1 (Hstep _ _ _ Hx))|split; assumption].
+Qed.
+
+Section ChoiceCases.
+  Variable sch : schema.
+  Variable path : list pstep.
+  Variable p : option sid.
+
+  Definition fle (s' s : forest * list change) : Prop := incl (fst s') (fst s).
+
+  Lemma choice_r_fle fuel pre st r : choice_r fuel sch path p pre st = Ok r -> fle r st.
+  Proof. intros H x Hx. apply (FiltOf_incl _ _ x (choice_r_form sch path p _ _ _ _ H) Hx). Qed.
+
+  Lemma choice_r_nc : forall fuel l0 st r,
+    choice_r fuel sch path p (map cc_of l0) st = Ok r ->
+    (forall n, In n (fst st) -> In (d_sid n) (schildren sch p)) ->
+    forall a b la ra lb rb, In a (fst r) -> In b (fst r) ->
+    chainf sch (d_sid a) = la ++ ra -> chainf sch (d_sid b) = lb ++ rb ->
+    map cc_of la = map cc_of l0 -> map cc_of lb = map cc_of l0 -> chain_conflict ra rb = false.
+  Proof.
+    induction fuel as [|fuel IH]; intros l0 st r H Hsids a b la ra lb rb Ha Hb Hca Hcb Hma Hmb; cbn [choice_r] in H; [discriminate|].
+    destruct ra as [|xa ra]; [reflexivity|]. destruct rb as [|xb rb]; [reflexivity|]. cbn [chain_conflict].
+    destruct (ch_id xa =? ch_id xb) eqn:Eid; [|reflexivity]. apply N.eqb_eq in Eid.
+    assert (Hstep1 : forall s x s', bind (validate_cases sch path p (map cc_of l0) x (fst s)) (fun r0 =>
+                       fold_res (fun st' k => choice_r fuel sch path p (map cc_of l0 ++ [(x, k)]) st')
+                                (cases_of sch p (map cc_of l0) x) (fst r0, snd s ++ snd r0)) = Ok s' -> fle s' s).
+    { intros s x s' Hx. apply bind_ok in Hx. destruct Hx as [a0 [Ha0 Hx]].
+      apply validate_cases_form in Ha0.
+      apply (fold_res_inv _ (fun t => fle t (fst a0, snd s ++ snd a0)) _) with (s := (fst a0, snd s ++ snd a0)) (r := s') in Hx.
+      - intros y Hy. apply (FiltOf_incl _ _ y Ha0). apply Hx, Hy.
+      - intros t k t' _ Ht Hk y Hy. apply Ht. apply (choice_r_fle _ _ _ _ Hk y Hy).
+      - intros y Hy; exact Hy. }
+    assert (Hrefl : forall s, fle s s) by (intros s y Hy; exact Hy).
+    assert (Htrans : forall x y z, fle x y -> fle y z -> fle x z) by (intros x y z H1 H2 w Hw; apply H2, H1, Hw).
+    assert (Hain : In a (fst st)) by (apply (choice_r_fle (S fuel) _ _ _ H a Ha)).
+    assert (Hcin : In (ch_id xa) (choices_at sch p (map cc_of l0))).
+    { rewrite <- Hma. apply (in_choices_at sch p (d_sid a) la xa ra (Hsids a Hain) Hca). }
+    destruct (fold_res_mid _ fle Hrefl Htrans Hstep1 _ (ch_id xa) st r Hcin H) as [s1 [s2 [Hs1 [Hmid Hs2]]]].
+    apply bind_ok in Hmid. destruct Hmid as [a0 [Ha0 Hmid]].
+    assert (Hle2 : fle s2 (fst a0, snd s1 ++ snd a0)).
+    { apply (fold_res_inv _ (fun t => fle t (fst a0, snd s1 ++ snd a0)) _) with (s := (fst a0, snd s1 ++ snd a0)) (r := s2) in Hmid;
+        [exact Hmid| |apply Hrefl].
+      intros t k t' _ Ht Hk y Hy. apply Ht. apply (choice_r_fle _ _ _ _ Hk y Hy). }
+    assert (Ha0in : In a (fst a0)) by (apply Hle2, Hs2, Ha). assert (Hb0in : In b (fst a0)) by (apply Hle2, Hs2, Hb).
+    assert (Hs1sids : forall n, In n (fst s1) -> In (d_sid n) (schildren sch p)) by (intros n Hn; apply Hsids, Hs1, Hn).
+    assert (Eka : n_case sch (map cc_of l0) (ch_id xa) a = Some (ch_case xa)).
+    { unfold n_case, s_case. rewrite Hca, <- Hma, next_chc_app, N.eqb_refl. reflexivity. }
+    assert (Ekb : n_case sch (map cc_of l0) (ch_id xa) b = Some (ch_case xb)).
+    { unfold n_case, s_case. rewrite Hcb, <- Hmb, next_chc_app, Eid, N.eqb_refl. reflexivity. }
+    pose proof (validate_cases_one_case sch path p _ _ _ _ Ha0 Hs1sids a b Ha0in Hb0in _ _ Eka Ekb) as Ecase.
+    rewrite Ecase, N.eqb_refl.
+    (* into the common case *)
+    assert (Hkin : In (ch_case xb) (cases_of sch p (map cc_of l0) (ch_id xa))).
+    { rewrite <- Ecase, <- Hma. apply (in_cases_of sch p (d_sid a) la xa ra (Hsids a Hain) Hca). }
+    assert (Hstep2 : forall t k t', choice_r fuel sch path p (map cc_of l0 ++ [(ch_id xa, k)]) t = Ok t' -> fle t' t)
+      by (intros t k t' Hk; apply (choice_r_fle _ _ _ _ Hk)).
+    destruct (fold_res_mid _ fle Hrefl Htrans Hstep2 _ (ch_case xb) _ s2 Hkin Hmid) as [t1 [t2 [Ht1 [Hk Ht2]]]].
+    assert (Em : map cc_of l0 ++ [(ch_id xa, ch_case xb)] = map cc_of (l0 ++ [xa])).
+    { assert (Ex : cc_of xa = (ch_id xa, ch_case xb)) by (unfold cc_of; rewrite Ecase; reflexivity).
+      rewrite map_app. cbn [map]. rewrite Ex. reflexivity. }
+    rewrite Em in Hk.
+    apply (IH (l0 ++ [xa]) t1 t2 Hk) with (a := a) (b := b) (la := la ++ [xa]) (lb := lb ++ [xb]).
+    - intros n Hn. apply Hs1sids. apply (FiltOf_incl _ _ n (validate_cases_form sch path p _ _ _ _ Ha0)). apply Ht1, Hn.
+    - apply Ht2, Hs2, Ha.
+    - apply Ht2, Hs2, Hb.
+    - rewrite <- app_assoc. exact Hca.
+    - rewrite <- app_assoc. exact Hcb.
+    - rewrite !map_app, Hma. reflexivity.
+    - assert (Ex : cc_of xb = cc_of xa) by (unfold cc_of; rewrite Eid, Ecase; reflexivity).
+      rewrite !map_app, Hmb. cbn [map]. rewrite Ex. reflexivity.
+  Qed.
+
+  Lemma choice_r_cases_ok_gen st r :
+    choice_r (cfuel sch) sch path p [] st = Ok r ->
+    (forall n, In n (fst st) -> In (d_sid n) (schildren sch p)) -> cases_okb sch (fst r) = true.
+  Proof.
+    intros H Hs. unfold cases_okb. apply forallb_forall. intros a Ha. apply forallb_forall. intros b Hb.
+    apply negb_true_iff.
+    apply (choice_r_nc (cfuel sch) [] st r H Hs a b [] _ [] _ Ha Hb eq_refl eq_refl eq_refl eq_refl).
+  Qed.
+End ChoiceCases.
+
+(* ------------------------------------------------------------------------------------------- *)
+(* the node loop of lyd_validate_new in closed form                                              *)
+(* ------------------------------------------------------------------------------------------- *)
+Definition esids (l : forest) : list sid := map d_sid (filter expl l).
+
+Definition lo_s (sch : schema) (es : list sid) (s : sid) : bool :=
+  match stale_prefix (rev (chainf sch s)) with
+  | None => false
+  | Some rp => negb (existsb (fun t => chain_pre (map cc_of (rev rp)) (chainf sch t)) es)
+  end.
+
+Lemma case_leftover_es sch all n : case_leftover sch all n = lo_s sch (esids all) (d_sid n).
+Proof.
+  unfold case_leftover, lo_s. destruct (stale_prefix (rev (chainf sch (d_sid n)))) as [rp|]; [|reflexivity]. f_equal.
+  unfold esids. induction all as [|x all IH]; cbn [existsb filter map]; [reflexivity|].
+  unfold expl at 1. destruct (d_dflt x); cbn [negb map existsb]; rewrite IH; [rewrite andb_false_r|rewrite andb_true_r]; reflexivity.
+Qed.
+
+Definition purge (sch : schema) (L : forest) (s : sid) : bool :=
+  has_default sch s && existsb (fun n => (d_sid n =? s) && d_new n) L.
+
+Definition keep (sch : schema) (L : forest) (n : dnode) : bool :=
+  negb (d_dflt n && (purge sch L (d_sid n) || lo_s sch (esids L) (d_sid n))).
+
+Lemma keep_clr sch L n : keep sch L (clr_new n) = keep sch L n.
+Proof. unfold keep. destruct (clr_new_fields n) as [E1 [_ [E3 _]]]. rewrite E1, E3. reflexivity. Qed.
+
+Lemma esids_app a b : esids (a ++ b) = esids a ++ esids b.
+Proof. unfold esids. rewrite filter_app, map_app. reflexivity. Qed.
+
+Lemma filter_sub {A} (q q' : A -> bool) l : (forall x, In x l -> q x = true -> q' x = true) -> filter q (filter q' l) = filter q l.
+Proof.
+  intro H. induction l as [|x l IH]; cbn [filter]; [reflexivity|].
+  assert (IH' := IH (fun y Hy => H y (or_intror Hy))).
+  destruct (q' x) eqn:E'; cbn [filter]; [rewrite IH'; reflexivity|].
+  destruct (q x) eqn:E; [rewrite (H x (or_introl eq_refl) E) in E'; discriminate|exact IH'].
+Qed.
+
+Lemma filter_remove_first {A} (q qr : A -> bool) l : (forall x, In x l -> qr x = true -> q x = false) -> filter q (remove_first qr l) = filter q l.
+Proof.
+  intro H. induction l as [|x l IH]; cbn [remove_first]; [reflexivity|].
+  destruct (qr x) eqn:E; cbn [filter]; [rewrite (H x (or_introl eq_refl) E); reflexivity|].
+  rewrite (IH (fun y Hy => H y (or_intror Hy))). reflexivity.
+Qed.
+
+Lemma esids_filter_dflt (q : dnode -> bool) l : (forall n, In n l -> q n = false -> d_dflt n = true) -> esids (filter q l) = esids l.
+Proof.
+  intro H. unfold esids. rewrite (filter_sub expl q l); [reflexivity|].
+  intros x Hx He. destruct (q x) eqn:Eq; [reflexivity|]. unfold expl in He. rewrite (H x Hx Eq) in He. discriminate.
+Qed.
+
+Lemma esids_remove_first_dflt (q : dnode -> bool) l : (forall n, In n l -> q n = true -> d_dflt n = true) -> esids (remove_first q l) = esids l.
+Proof.
+  intro H. unfold esids. rewrite (filter_remove_first expl q l); [reflexivity|].
+  intros x Hx Eq. unfold expl. rewrite (H x Hx Eq). reflexivity.
+Qed.
+
+Lemma esids_clr n : esids [clr_new n] = esids [n].
+Proof. unfold esids. cbn [filter]. unfold expl. rewrite clr_new_expl. destruct (d_dflt n); cbn [negb map]; [reflexivity|]. destruct (clr_new_fields n) as [E1 _]. rewrite E1. reflexivity. Qed.
+
+
+Section LoopForm.
+  Variable sch : schema.
+  Variable path : list pstep.
+  Variable L : forest.
+  Hypothesis H1 : forall n, In n L -> d_new n = true -> d_dflt n = false.
+
+  Let target : forest := map clr_new (filter (keep sch L) L).
+
+  (* wit = where a not yet visited new instance of a purged schema node may still be *)
+  Record LInv (bef all wit : forest) (last : option sid) : Prop := {
+    l_keep : map clr_new (filter (keep sch L) all) = target;
+    l_bef : forall n, In n bef -> d_new n = false /\ (d_dflt n = true -> lo_s sch (esids L) (d_sid n) = false);
+    l_purge : forall s, purge sch L s = true ->
+              (exists n, In n wit /\ d_sid n = s /\ d_new n = true) \/ (forall n, In n all -> is_dflt_of s n = false);
+    l_last : forall s, last = Some s -> forall n, In n all -> is_dflt_of s n = false;
+    l_es : esids all = esids L
+  }.
+
+  Lemma purge_of_new n : In n L -> d_new n = true -> has_default sch (d_sid n) = true -> purge sch L (d_sid n) = true.
+  Proof.
+    intros Hn Hnew Hd. unfold purge. rewrite Hd. cbn [andb]. apply existsb_exists. exists n. split; [exact Hn|].
+    rewrite N.eqb_refl, Hnew. reflexivity.
+  Qed.
+
+  Lemma keep_false_purged n : d_dflt n = true -> purge sch L (d_sid n) = true -> keep sch L n = false.
+  Proof. intros Hd Hp. unfold keep. rewrite Hd, Hp. reflexivity. Qed.
+
+  (* the final step *)
+  Lemma LInv_done bef last : LInv bef bef [] last -> bef = target.
+  Proof.
+    intros [Hk Hb Hp _ _].
+    assert (E1 : filter (keep sch L) bef = bef).
+    { apply filter_id. intros n Hn. unfold keep. destruct (d_dflt n) eqn:Ed; [|reflexivity]. cbn [andb].
+      destruct (Hb n Hn) as [_ Hlo]. rewrite (Hlo Ed), orb_false_r.
+      destruct (purge sch L (d_sid n)) eqn:Ep; [exfalso|reflexivity].
+      destruct (Hp _ Ep) as [[x [[] _]]|Hno]. specialize (Hno n Hn). unfold is_dflt_of in Hno. rewrite N.eqb_refl, Ed in Hno. discriminate. }
+    assert (E2 : map clr_new bef = bef).
+    { clear -Hb. induction bef as [|n l IH]; cbn [map]; [reflexivity|].
+      rewrite (clr_new_id n (proj1 (Hb n (or_introl eq_refl)))), IH; [reflexivity|]. intros x Hx. apply Hb. right. exact Hx. }
+    rewrite <- Hk, E1, E2. reflexivity.
+  Qed.
+
+  Lemma vnew_loop_form : forall fuel bef aft last acc r,
+    LInv bef (bef ++ aft) aft last -> (forall n, In n aft -> In n L) ->
+    vnew_loop fuel sch path bef aft last acc = Ok r -> fst r = target.
+  Proof.
+    induction fuel as [|fuel IH]; intros bef aft last acc r HI Haft H; cbn [vnew_loop] in H; [discriminate|].
+    destruct aft as [|cur rest].
+    - inversion H; subst. cbn [fst]. rewrite app_nil_r in HI. apply (LInv_done bef last HI).
+    - assert (HcurL : In cur L) by (apply Haft; left; reflexivity).
+      assert (HrestL : forall n, In n rest -> In n L) by (intros n Hn; apply Haft; right; exact Hn).
+      destruct (d_new cur || d_dflt cur) eqn:End; cbn [negb] in H.
+      2: { (* neither new nor default: just step over it *)
+        apply orb_false_iff in End. destruct End as [En Ed].
+        apply (IH _ _ _ _ _) in H; [exact H| |exact HrestL].
+        destruct HI as [Hk Hb Hp Hl He]. rewrite <- app_assoc. cbn [app]. constructor; try assumption.
+        - intros n Hn. apply in_app_or in Hn. destruct Hn as [Hn|[<-|[]]]; [apply Hb, Hn|]. split; [exact En|]. rewrite Ed. discriminate.
+        - intros s Hs. destruct (Hp s Hs) as [[x [[<-|Hx] [Hxs Hxn]]]|Hno]; [congruence|left; exists x; repeat split; assumption|right; exact Hno]. }
+      (* the state after the auto-deletion of superseded defaults *)
+      set (s := d_sid cur) in *.
+      set (try := has_default sch s && negb (opt_is last s) && d_new cur) in *.
+      match type of H with context [match ?X with _ => _ end] =>
+        match X with (if _ then _ else _) => set (T := X) in * end end.
+      assert (Hmid : exists bef1 rest1 dels,
+                 T = (bef1, false, rest1, dels) /\
+                 LInv bef1 (bef1 ++ cur :: rest1) rest1 (if try then Some s else last) /\
+                 (forall n, In n rest1 -> In n L)).
+      { unfold T. destruct try eqn:Et.
+        - (* a new node of a schema node with a default: the default instances go *)
+          unfold try in Et. apply andb_true_iff in Et. destruct Et as [Et Hcn]. apply andb_true_iff in Et. destruct Et as [Hhd _].
+          pose proof (H1 cur HcurL Hcn) as Hce.
+          pose proof (purge_of_new cur HcurL Hcn Hhd) as Hps. fold s in Hps.
+          unfold autodel_dflt. fold s.
+          assert (Ex : existsb (is_expl_of s) (bef ++ cur :: rest) = true).
+          { apply existsb_exists. exists cur. split; [apply in_or_app; right; left; reflexivity|].
+            unfold is_expl_of, s. rewrite N.eqb_refl, Hce. reflexivity. }
+          rewrite Ex. unfold is_dflt_of at 2. rewrite Hce, andb_false_r.
+          eexists _, _, _. split; [reflexivity|].
+          set (q := fun n => negb (is_dflt_of s n)).
+          assert (Eall : filter q (bef ++ cur :: rest) = filter q bef ++ cur :: filter q rest).
+          { rewrite filter_app. cbn [filter]. unfold q at 2, is_dflt_of. rewrite Hce, andb_false_r. reflexivity. }
+          destruct HI as [Hk Hb Hp Hl He]. split; [|intros n Hn; apply filter_In in Hn; apply HrestL, Hn].
+          rewrite <- Eall. constructor.
+          + rewrite filter_sub; [exact Hk|]. intros x Hx Hkx. unfold q. apply negb_true_iff.
+            destruct (is_dflt_of s x) eqn:Ex0; [exfalso|reflexivity]. unfold is_dflt_of in Ex0. apply andb_true_iff in Ex0.
+            destruct Ex0 as [Es Ed]. apply N.eqb_eq in Es. rewrite keep_false_purged in Hkx; [discriminate|exact Ed|rewrite Es; exact Hps].
+          + intros n Hn. apply filter_In in Hn. apply Hb, Hn.
+          + intros t Ht. destruct (N.eq_dec t s) as [->|Hne].
+            * right. intros n Hn. apply filter_In in Hn. destruct Hn as [_ Hn]. unfold q in Hn. apply negb_true_iff in Hn. exact Hn.
+            * destruct (Hp t Ht) as [[x [[<-|Hx] [Hxs Hxn]]]|Hno]; [unfold s in Hne; congruence| |right; intros n Hn; apply filter_In in Hn; apply Hno, Hn].
+              left. exists x. split; [|split; assumption]. apply filter_In. split; [exact Hx|].
+              unfold q, is_dflt_of. rewrite (H1 x (HrestL x Hx) Hxn), andb_false_r. reflexivity.
+          + intros t Et n Hn. inversion Et; subst t. apply filter_In in Hn. destruct Hn as [_ Hn]. unfold q in Hn. apply negb_true_iff in Hn. exact Hn.
+          + rewrite esids_filter_dflt; [exact He|]. intros n _ Hq. unfold q in Hq. apply negb_false_iff in Hq.
+            unfold is_dflt_of in Hq. apply andb_true_iff in Hq. apply Hq.
+        - exists bef, rest, []. split; [reflexivity|]. split; [|exact HrestL].
+          destruct HI as [Hk Hb Hp Hl He]. constructor; try assumption.
+          intros t Ht. destruct (Hp t Ht) as [[x [[<-|Hx] [Hxs Hxn]]]|Hno]; [|left; exists x; repeat split; assumption|right; exact Hno].
+          (* cur is the new instance: its defaults were purged when last was set *)
+          right. unfold try in Et. fold s in Hxs. subst t.
+          assert (Hhd : has_default sch s = true) by (unfold purge in Ht; apply andb_true_iff in Ht; apply Ht).
+          rewrite Hhd, Hxn, andb_true_r in Et. cbn [andb] in Et. apply negb_false_iff in Et.
+          unfold opt_is in Et. destruct last as [t|]; [|discriminate]. apply N.eqb_eq in Et. subst t. apply (Hl s eq_refl). }
+      destruct Hmid as [bef1 [rest1 [dels [Ea [HM HrestL1]]]]].
+      set (last' := if try then Some s else last) in *.
+      rewrite Ea in H.
+      destruct (d_new cur && negb (dup_inst sch s) && existsb (same_inst sch cur) (bef1 ++ rest1)); [discriminate|].
+      destruct HM as [Hk Hb Hp Hl He].
+      assert (Elo : case_leftover sch (bef1 ++ clr_new cur :: rest1) (clr_new cur) = lo_s sch (esids L) s).
+      { rewrite case_leftover_es. destruct (clr_new_fields cur) as [E1 _]. rewrite E1. fold s. f_equal.
+        rewrite <- He, !esids_app. f_equal. change (clr_new cur :: rest1) with ([clr_new cur] ++ rest1).
+        change (cur :: rest1) with ([cur] ++ rest1). rewrite !esids_app, esids_clr. reflexivity. }
+      rewrite Elo, clr_new_expl in H.
+      destruct (d_dflt cur && lo_s sch (esids L) s) eqn:Edel.
+      + (* left over: deleted *)
+        apply andb_true_iff in Edel. destruct Edel as [Ed Elos].
+        assert (Hcn : d_new cur = false).
+        { destruct (d_new cur) eqn:E; [|reflexivity]. rewrite (H1 cur HcurL E) in Ed. discriminate. }
+        apply (IH _ _ _ _ _) in H; [exact H| |exact HrestL1].
+        constructor.
+        * assert (Ekc : keep sch L cur = false) by (unfold keep; fold s; rewrite Ed, Elos, orb_true_r; reflexivity).
+          rewrite <- Hk. rewrite !filter_app. cbn [filter]. rewrite Ekc. reflexivity.
+        * exact Hb.
+        * intros t Ht. destruct (Hp t Ht) as [Hw|Hno]; [left; exact Hw|right].
+          intros n Hn. apply Hno. apply in_app_or in Hn. apply in_or_app. destruct Hn as [Hn|Hn]; [left; exact Hn|right; right; exact Hn].
+        * intros t Et n Hn. apply (Hl t Et). apply in_app_or in Hn. apply in_or_app. destruct Hn as [Hn|Hn]; [left; exact Hn|right; right; exact Hn].
+        * rewrite <- He, !esids_app. f_equal. change (cur :: rest1) with ([cur] ++ rest1). rewrite esids_app.
+          unfold esids at 2. cbn [filter]. unfold expl. rewrite Ed. reflexivity.
+      + (* kept, LYD_NEW cleared *)
+        apply (IH _ _ _ _ _) in H; [exact H| |exact HrestL1].
+        rewrite <- app_assoc. cbn [app].
+        assert (Hfields := clr_new_fields cur). destruct Hfields as [F1 [_ [F3 _]]].
+        constructor.
+        * rewrite <- Hk. rewrite !filter_app, !map_app. f_equal. cbn [filter]. rewrite keep_clr.
+          destruct (keep sch L cur); cbn [map]; [rewrite clr_new_idem|]; reflexivity.
+        * intros n Hn. apply in_app_or in Hn. destruct Hn as [Hn|[<-|[]]]; [apply Hb, Hn|].
+          split; [apply clr_new_not_new|]. rewrite F3, F1. fold s. intro Ed. rewrite Ed in Edel. cbn [andb] in Edel. exact Edel.
+        * intros t Ht. destruct (Hp t Ht) as [Hw|Hno]; [left; exact Hw|right].
+          intros n Hn. apply in_app_or in Hn. destruct Hn as [Hn|[<-|Hn]].
+          -- apply Hno. apply in_or_app. left. exact Hn.
+          -- unfold is_dflt_of. rewrite F1, F3. apply (Hno cur). apply in_or_app. right. left. reflexivity.
+          -- apply Hno. apply in_or_app. right. right. exact Hn.
+        * intros t Et n Hn. apply in_app_or in Hn. destruct Hn as [Hn|[<-|Hn]].
+          -- apply (Hl t Et). apply in_or_app. left. exact Hn.
+          -- unfold is_dflt_of. rewrite F1, F3. apply (Hl t Et cur). apply in_or_app. right. left. reflexivity.
+          -- apply (Hl t Et). apply in_or_app. right. right. exact Hn.
+        * rewrite <- He, !esids_app. f_equal. change (clr_new cur :: rest1) with ([clr_new cur] ++ rest1).
+          change (cur :: rest1) with ([cur] ++ rest1). rewrite !esids_app, esids_clr. reflexivity.
+  Qed.
+End LoopForm.
+
+(* ------------------------------------------------------------------------------------------- *)
+(* lyd_validate_new in closed form                                                               *)
+(* ------------------------------------------------------------------------------------------- *)
+Lemma vnew_form sch path p f r :
+  (forall n, In n f -> d_new n = true -> d_dflt n = false) ->
+  (forall n, In n f -> In (d_sid n) (schildren sch p)) ->
+  vnew sch path p f = Ok r ->
+  exists F, FiltOf f F /\ cases_okb sch F = true /\ fst r = map clr_new (filter (keep sch F) F).
+Proof.
+  intros H1 Hs H. unfold vnew in H. apply bind_ok in H. destruct H as [st [Hc H]].
+  exists (fst st). split; [apply (choice_r_form sch path p _ _ _ _ Hc)|].
+  split; [apply (choice_r_cases_ok_gen sch path p (f, []) st Hc Hs)|].
+  assert (H1' : forall n, In n (fst st) -> d_new n = true -> d_dflt n = false).
+  { intros n Hn. apply H1. apply (FiltOf_incl _ _ n (choice_r_form sch path p _ _ _ _ Hc) Hn). }
+  refine (vnew_loop_form sch path (fst st) H1' _ [] (fst st) None (snd st) r _ (fun n Hn => Hn) H).
+  constructor.
+  - reflexivity.
+  - intros n [].
+  - intros s Hp. left. unfold purge in Hp. apply andb_true_iff in Hp. destruct Hp as [_ Hp].
+    apply existsb_exists in Hp. destruct Hp as [n [Hn Hq]]. apply andb_true_iff in Hq. destruct Hq as [Hq1 Hq2].
+    apply N.eqb_eq in Hq1. exists n. repeat split; assumption.
+  - intros s Hs0. discriminate.
+  - reflexivity.
+Qed.
+
+(* ------------------------------------------------------------------------------------------- *)
+(* a node that is not left over is in use (given consistent cases)                               *)
+(* ------------------------------------------------------------------------------------------- *)
+Lemma stale_prefix_none r : stale_prefix r = None -> forall x, In x r -> ch_dflt x = true.
+Proof.
+  induction r as [|y r IH]; intros H x Hx; [destruct Hx|]. cbn [stale_prefix] in H.
+  destruct (ch_dflt y) eqn:Ey; [|discriminate]. destruct Hx as [<-|Hx]; [exact Ey|apply (IH H x Hx)].
+Qed.
+
+Lemma stale_prefix_some2 r : forall rp, stale_prefix r = Some rp ->
+  exists r1 x r', r = r1 ++ rp /\ rp = x :: r' /\ ch_dflt x = false /\ forall y, In y r1 -> ch_dflt y = true.
+Proof.
+  induction r as [|y r IH]; intros rp H; cbn [stale_prefix] in H; [discriminate|].
+  destruct (ch_dflt y) eqn:Ey.
+  - destruct (IH rp H) as [r1 [x [r' [E1 [E2 [E3 E4]]]]]]. exists (y :: r1), x, r'. subst r. repeat split; try assumption.
+    intros z [<-|Hz]; [exact Ey|apply E4, Hz].
+  - inversion H; subst rp. exists [], y, r. repeat split; [exact Ey|intros z []].
+Qed.
+
+Lemma active_from_levels sch g : forall l pre,
+  (forall la x lb, l = la ++ x :: lb -> level_cond sch g (pre ++ map cc_of la) x = true) -> active_from sch g pre l = true.
+Proof.
+  induction l as [|x l IH]; intros pre H; cbn [active_from]; [reflexivity|].
+  apply andb_true_iff. split.
+  - pose proof (H [] x l eq_refl) as H0. cbn [map] in H0. rewrite app_nil_r in H0. exact H0.
+  - apply IH. intros la y lb E. pose proof (H (x :: la) y lb) as H0. cbn [map app] in H0. rewrite <- app_assoc. cbn [app].
+    apply H0. rewrite E. reflexivity.
+Qed.
+
+Section NotLeftover.
+  Variable sch : schema.
+  Hypothesis Hk : chc_okb sch = true.
+
+  (* a default case on the chain of a sibling: in use as soon as the cases of the siblings do not conflict *)
+  Lemma dflt_level_cond g n la x lb : cases_okb sch g = true -> In n g ->
+    chainf sch (d_sid n) = la ++ x :: lb -> ch_dflt x = true -> level_cond sch g (map cc_of la) x = true.
+  Proof.
+    intros Hc Hn Hch Hd. unfold level_cond. rewrite Hd. cbn [andb].
+    destruct (existsb (fun m => expl m && in_choice sch (map cc_of la) (ch_id x) m) g) eqn:Ee; [|apply orb_true_r].
+    apply orb_true_iff. left. apply existsb_exists in Ee. destruct Ee as [m [Hm Hq]]. apply andb_true_iff in Hq. destruct Hq as [He Hic].
+    apply existsb_exists. exists m. split; [exact Hm|]. rewrite He. cbn [andb].
+    unfold in_choice in Hic. destruct (n_case sch (map cc_of la) (ch_id x) m) as [k'|] eqn:Ek; [|discriminate].
+    unfold in_case. rewrite Ek.
+    (* m and n do not conflict *)
+    unfold n_case, s_case in Ek. destruct (next_chc (map cc_of la) (chainf sch (d_sid m))) as [y|] eqn:En; [|discriminate].
+    destruct (ch_id y =? ch_id x) eqn:Ei; [|discriminate]. apply N.eqb_eq in Ei. inversion Ek; subst k'.
+    destruct (next_chc_some _ _ _ En) as [ma [mb [Hml Hmp]]].
+    unfold cases_okb in Hc. rewrite forallb_forall in Hc. specialize (Hc m Hm). rewrite forallb_forall in Hc. specialize (Hc n Hn).
+    apply negb_true_iff in Hc. rewrite Hml, Hch, (chain_conflict_split ma la y x mb lb Hmp), Ei, N.eqb_refl in Hc.
+    destruct (ch_case y =? ch_case x) eqn:Ec; [reflexivity|discriminate].
+  Qed.
+
+  Lemma not_leftover_active g n : cases_okb sch g = true -> In n g ->
+    lo_s sch (esids g) (d_sid n) = false -> active sch g (d_sid n) = true.
+  Proof.
+    intros Hc Hn Hlo. unfold active. apply active_from_levels. intros la x lb El. cbn [app].
+    destruct (ch_dflt x) eqn:Ed; [apply (dflt_level_cond g n la x lb Hc Hn El Ed)|].
+    (* a case that is not a default case: it is at or above the one checked for an explicit node *)
+    unfold lo_s in Hlo. destruct (stale_prefix (rev (chainf sch (d_sid n)))) as [rp|] eqn:Er.
+    - destruct (stale_prefix_some2 _ _ Er) as [r1 [y [r' [E1 [E2 [E3 E4]]]]]].
+      assert (Ech : chainf sch (d_sid n) = rev r' ++ y :: rev r1).
+      { rewrite <- (rev_involutive (chainf sch (d_sid n))), E1, E2, rev_app_distr. cbn [rev]. rewrite <- app_assoc. reflexivity. }
+      (* x is not in the default tail rev r1 *)
+      assert (Hpos : exists t, rev r' ++ [y] = la ++ x :: t).
+      { rewrite El in Ech. clear -Ech Ed E4. revert Ech. generalize (rev r') as u. revert la.
+        assert (E4' : forall z, In z (rev r1) -> ch_dflt z = true) by (intros z Hz; apply E4; apply in_rev; exact Hz).
+        clear E4. generalize dependent (rev r1). intros w E4'.
+        induction la as [|a la IH]; intros u Ech.
+        - destruct u as [|b u]; cbn [app] in Ech.
+          + inversion Ech; subst. exists []. reflexivity.
+          + inversion Ech; subst. exists (u ++ [y]). reflexivity.
+        - destruct u as [|b u]; cbn [app] in Ech.
+          + inversion Ech; subst. exfalso. assert (Hx : In x (la ++ x :: lb)) by (apply in_or_app; right; left; reflexivity).
+            rewrite (E4' x Hx) in Ed. discriminate.
+          + inversion Ech; subst. destruct (IH u H1) as [t Ht]. exists t. cbn [app]. rewrite Ht. reflexivity. }
+      destruct Hpos as [t Ht].
+      apply negb_false_iff in Hlo. apply existsb_exists in Hlo. destruct Hlo as [ms [Hms Hpre]].
+      unfold esids in Hms. apply in_map_iff in Hms. destruct Hms as [m [<- Hm]]. apply filter_In in Hm. destruct Hm as [Hm He].
+      unfold level_cond. apply orb_true_iff. left. apply existsb_exists. exists m. split; [exact Hm|]. rewrite He. cbn [andb].
+      rewrite E2 in Hpre. cbn [rev] in Hpre. rewrite Ht in Hpre.
+      (* the chain of m starts with la ++ [x] *)
+      unfold in_case, n_case, s_case.
+      assert (Hnx : exists x', next_chc (map cc_of la) (chainf sch (d_sid m)) = Some x' /\ cc_of x' = cc_of x).
+      { clear -Hpre. revert Hpre. generalize (chainf sch (d_sid m)) as cm. induction la as [|a la IH]; intros cm Hpre; cbn [app map chain_pre] in Hpre.
+        - destruct cm as [|c0 cm]; [discriminate|]. apply andb_true_iff in Hpre. destruct Hpre as [Hc0 _]. apply cc_eqb_eq in Hc0.
+          exists c0. split; [reflexivity|symmetry; exact Hc0].
+        - destruct cm as [|c0 cm]; [discriminate|]. apply andb_true_iff in Hpre. destruct Hpre as [Hc0 Hpre].
+          destruct (IH cm Hpre) as [x' [Hn' Hc']]. exists x'. cbn [map next_chc]. rewrite Hc0. split; assumption. }
+      destruct Hnx as [x' [Hn' Hc']]. rewrite Hn'. unfold cc_of in Hc'. inversion Hc' as [[Hi Hcs]]. rewrite Hi, N.eqb_refl, Hcs. apply N.eqb_refl.
+    - pose proof (stale_prefix_none _ Er x) as Hall. rewrite Hall in Ed; [discriminate|]. apply -> in_rev. rewrite El. apply in_or_app. right. left. reflexivity.
+  Qed.
+End NotLeftover.
+
+(* ------------------------------------------------------------------------------------------- *)
+(* lyd_new_implicit on siblings whose default nodes are complete and in use                      *)
+(* ------------------------------------------------------------------------------------------- *)
+Lemma cases_okb_incl sch l l' : incl l' l -> cases_okb sch l = true -> cases_okb sch l' = true.
+Proof.
+  intros Hi H. unfold cases_okb in *. rewrite forallb_forall in H. apply forallb_forall. intros a Ha.
+  specialize (H a (Hi a Ha)). rewrite forallb_forall in H. apply forallb_forall. intros b Hb. apply H, Hi, Hb.
+Qed.
+
+Lemma implicit_normal_form_gen sch path p g0 acc r :
+  chc_okb sch = true -> cases_okb sch g0 = true ->
+  (forall n, In n g0 -> d_new n = false) -> (forall n, In n g0 -> In (d_sid n) (schildren sch p)) ->
+  (forall n, In n g0 -> d_dflt n = true -> active sch g0 (d_sid n) = true) ->
+  (forall s, filter (is_dflt_of s) g0 = [] \/
+             (has_sid (filter expl g0) s = false /\ has_default sch s = true /\ complete sch s (filter (is_dflt_of s) g0) = true)) ->
+  implicit (cfuel sch) sch false path p [] (g0, acc) = Ok r ->
+  norm_level sch p (fst r) = true /\ Inv sch p (filter expl g0) g0 (fst r).
+Proof.
+  intros Hk Hc Hn Hs Ha Hcomp H.
+  set (E := filter expl g0).
+  assert (HEc : cases_okb sch E = true) by (apply (cases_okb_incl sch g0); [intros x Hx; apply filter_In in Hx; apply Hx|exact Hc]).
+  assert (HEn : forall n, In n E -> d_new n = false) by (intros n Hx; apply filter_In in Hx; apply Hn, Hx).
+  assert (HEs : forall n, In n E -> In (d_sid n) (schildren sch p)) by (intros n Hx; apply filter_In in Hx; apply Hs, Hx).
+  assert (HI0 : Inv sch p E g0 g0).
+  { constructor; [reflexivity| |exact Hcomp].
+    intros n Hx Hd. split; [apply Hs, Hx|]. split; [apply Ha; assumption|]. split; [apply Hn, Hx|left; exact Hx]. }
+  destruct (implicit_inv sch path p E g0 Hk (cfuel sch) [] (g0, acc) r (fun x (Hx : In x []) => match Hx with end) HI0 eq_refl H) as [HI _].
+  split; [|exact HI].
+  apply (Inv_norm_level sch p E g0 Hk HEc HEn HEs); [exact HI|].
+  intros s Hss Hd Hact.
+  apply (implicit_complete sch path p E g0 Hk HEc (cfuel sch) [] (g0, acc) r s (chainf sch s)
+           (fun x (Hx : In x []) => match Hx with end) HI0 eq_refl H Hss eq_refl); [|exact Hd].
+  unfold active in Hact. rewrite (active_from_Inv sch p E g0 (fst r) HI) in Hact. exact Hact.
+Qed.
+
+(* ------------------------------------------------------------------------------------------- *)
+(* edited siblings: new nodes are explicit; the (old) default instances of a schema node are complete and no old       *)
+(* explicit instance stands beside them                                                                               *)
+(* ------------------------------------------------------------------------------------------- *)
+Lemma complete_has_default sch s D : complete sch s D = true -> has_default sch s = true.
+Proof.
+  unfold complete, has_default. destruct (kind_of sch s) as [[|]| | | |]; try discriminate; try reflexivity;
+    destruct (si_dflts (sget sch s)); try discriminate; reflexivity.
+Qed.
+
+Lemma map_clr_old l : (forall n, In n l -> d_new n = false) -> map clr_new l = l.
+Proof.
+  induction l as [|n l IH]; intro H; cbn [map]; [reflexivity|].
+  rewrite (clr_new_id n (H n (or_introl eq_refl))), IH; [reflexivity|]. intros x Hx. apply H. right. exact Hx.
+Qed.
+
+Lemma filter_map_clr (q : dnode -> bool) l : (forall n, q (clr_new n) = q n) -> filter q (map clr_new l) = map clr_new (filter q l).
+Proof.
+  intro Hq. induction l as [|n l IH]; cbn [map filter]; [reflexivity|]. rewrite Hq. destruct (q n); cbn [map]; rewrite IH; reflexivity.
+Qed.
+
+Lemma esids_map_clr l : esids (map clr_new l) = esids l.
+Proof.
+  unfold esids. rewrite filter_map_clr by (intro n; unfold expl; rewrite clr_new_expl; reflexivity).
+  rewrite map_map. apply map_ext. intro n. apply (clr_new_fields n).
+Qed.
+
+Lemma filter_none {A} (q : A -> bool) l : (forall x, In x l -> q x = false) -> filter q l = [].
+Proof.
+  induction l as [|x l IH]; intro H; cbn [filter]; [reflexivity|]. rewrite (H x (or_introl eq_refl)). apply IH. intros y Hy. apply H. right. exact Hy.
+Qed.
+
+Section VnewP.
+  Variable sch : schema.
+  Variable path : list pstep.
+  Variable p : option sid.
+  Hypothesis Hk : chc_okb sch = true.
+
+  Lemma vnew_P f r : edited_lvl sch p f = true -> vnew sch path p f = Ok r ->
+    let g0 := fst r in
+    cases_okb sch g0 = true /\
+    (forall n, In n g0 -> d_new n = false) /\ (forall n, In n g0 -> In (d_sid n) (schildren sch p)) /\
+    (forall n, In n g0 -> d_dflt n = true -> active sch g0 (d_sid n) = true) /\
+    (forall s, filter (is_dflt_of s) g0 = [] \/
+               (has_sid (filter expl g0) s = false /\ has_default sch s = true /\ complete sch s (filter (is_dflt_of s) g0) = true)) /\
+    (exists F, FiltOf f F /\ g0 = map clr_new (filter (keep sch F) F)).
+  Proof.
+    intros He H. unfold edited_lvl in He. apply andb_true_iff in He. destruct He as [He E3]. apply andb_true_iff in He. destruct He as [E1 E2].
+    rewrite forallb_forall in E1, E2, E3.
+    assert (H1 : forall n, In n f -> d_new n = true -> d_dflt n = false).
+    { intros n Hn Hnew. specialize (E1 n Hn). rewrite Hnew in E1. cbn [andb] in E1. apply negb_true_iff. exact E1. }
+    assert (Hsids : forall n, In n f -> In (d_sid n) (schildren sch p)).
+    { intros n Hn. specialize (E2 n Hn). apply existsb_exists in E2. destruct E2 as [s [Hs Es]]. apply N.eqb_eq in Es. subst s. exact Hs. }
+    destruct (vnew_form sch path p f r H1 Hsids H) as [F [HF [HcF Hr]]]. cbv zeta. rewrite Hr.
+    set (K := filter (keep sch F) F).
+    assert (HKF : incl K F) by (intros x Hx; apply filter_In in Hx; apply Hx).
+    assert (HFf : incl F f) by (intros x Hx; apply (FiltOf_incl _ _ x HF Hx)).
+    assert (Hin : forall n, In n (map clr_new K) -> exists n0, In n0 K /\ n = clr_new n0).
+    { intros n Hn. apply in_map_iff in Hn. destruct Hn as [n0 [E Hn0]]. exists n0. split; [exact Hn0|symmetry; exact E]. }
+    assert (HcK : cases_okb sch (map clr_new K) = true).
+    { rewrite cases_okb_map_clr. apply (cases_okb_incl sch F K HKF HcF). }
+    assert (Hes : esids (map clr_new K) = esids F).
+    { rewrite esids_map_clr. unfold K. apply esids_filter_dflt. intros n _ Hq. unfold keep in Hq. apply negb_false_iff in Hq.
+      apply andb_true_iff in Hq. apply Hq. }
+    split; [exact HcK|]. split; [|split; [|split; [|split]]].
+    - intros n Hn. destruct (Hin n Hn) as [n0 [_ ->]]. apply clr_new_not_new.
+    - intros n Hn. destruct (Hin n Hn) as [n0 [Hn0 ->]]. destruct (clr_new_fields n0) as [E _]. rewrite E. apply Hsids, HFf, HKF, Hn0.
+    - (* a default node that was kept is in use *)
+      intros n Hn Hd. apply (not_leftover_active sch _ n HcK Hn). rewrite Hes.
+      destruct (Hin n Hn) as [n0 [Hn0 ->]]. destruct (clr_new_fields n0) as [F1 [_ [F3 _]]]. rewrite F1. rewrite F3 in Hd.
+      apply filter_In in Hn0. destruct Hn0 as [_ Hkeep]. unfold keep in Hkeep. rewrite Hd in Hkeep. cbn [andb] in Hkeep.
+      apply negb_true_iff in Hkeep. apply orb_false_iff in Hkeep. apply Hkeep.
+    - (* the default instances of s *)
+      intro s.
+      assert (ED : filter (is_dflt_of s) (map clr_new K) = map clr_new (filter (fun n => is_dflt_of s n && keep sch F n) F)).
+      { rewrite filter_map_clr by (intro n; unfold is_dflt_of; destruct (clr_new_fields n) as [F1 [_ [F3 _]]]; rewrite F1, F3; reflexivity).
+        unfold K. rewrite filter_filter. f_equal. apply filter_ext. intro n. apply andb_comm. }
+      set (ks := negb (purge sch F s || lo_s sch (esids F) s)).
+      assert (EDk : filter (fun n => is_dflt_of s n && keep sch F n) F = if ks then filter (is_dflt_of s) F else []).
+      { destruct ks eqn:Eks.
+        - apply filter_ext_in. intros n _. unfold is_dflt_of. destruct (d_sid n =? s) eqn:Es; [|reflexivity].
+          destruct (d_dflt n) eqn:Ed; [|reflexivity]. cbn [andb]. unfold keep. rewrite Ed. apply N.eqb_eq in Es. rewrite Es. exact Eks.
+        - assert (Hnone : forall n, In n F -> (is_dflt_of s n && keep sch F n) = false).
+          { intros n _. unfold is_dflt_of. destruct (d_sid n =? s) eqn:Es; [|reflexivity].
+            destruct (d_dflt n) eqn:Ed; [|reflexivity]. cbn [andb]. unfold keep. rewrite Ed. apply N.eqb_eq in Es. rewrite Es. exact Eks. }
+          apply filter_none. exact Hnone. }
+      rewrite ED, EDk. destruct ks eqn:Eks; [|left; reflexivity].
+      destruct (filter (is_dflt_of s) F) as [|d0 DF] eqn:EDF; [left; reflexivity|]. right.
+      (* all instances of s pass the case filter *)
+      destruct HF as [q [EF [Hqn Hqa]]].
+      assert (Hd0 : In d0 F /\ is_dflt_of s d0 = true).
+      { assert (Hx : In d0 (filter (is_dflt_of s) F)) by (rewrite EDF; left; reflexivity). apply filter_In in Hx. exact Hx. }
+      destruct Hd0 as [Hd0F Hd0s]. unfold is_dflt_of in Hd0s. apply andb_true_iff in Hd0s. destruct Hd0s as [Hd0sid Hd0d]. apply N.eqb_eq in Hd0sid.
+      assert (Hqs : q s = true).
+      { rewrite EF in Hd0F. apply filter_In in Hd0F. rewrite <- Hd0sid. apply Hd0F. }
+      assert (EDf : filter (is_dflt_of s) F = filter (is_dflt_of s) f).
+      { rewrite EF, filter_filter. apply filter_ext_in. intros n _. unfold is_dflt_of. destruct (d_sid n =? s) eqn:Es; [|apply andb_false_r].
+        apply N.eqb_eq in Es. rewrite Es, Hqs. reflexivity. }
+      assert (Hss : In s (schildren sch p)) by (rewrite <- Hd0sid; apply Hsids, HFf, Hd0F).
+      specialize (E3 s Hss). cbv zeta in E3. rewrite <- EDf, EDF in E3. cbn [is_nil orb] in E3.
+      apply andb_true_iff in E3. destruct E3 as [Hcomp Hnoold]. apply is_nil_true in Hnoold.
+      assert (Hdold : forall n, In n (d0 :: DF) -> d_new n = false).
+      { intros n Hn. rewrite <- EDF in Hn. apply filter_In in Hn. destruct Hn as [HnF Hq]. unfold is_dflt_of in Hq. apply andb_true_iff in Hq.
+        destruct Hq as [_ Hq]. destruct (d_new n) eqn:En; [|reflexivity]. rewrite (H1 n (HFf n HnF) En) in Hq. discriminate. }
+      rewrite (map_clr_old _ Hdold).
+      pose proof (complete_has_default sch s _ Hcomp) as Hhd.
+      split; [|split; [exact Hhd|exact Hcomp]].
+      (* no explicit instance: an old one is excluded by the hypothesis, a new one would have purged the defaults *)
+      unfold has_sid. apply existsb_false_forall. intros n Hn. apply filter_In in Hn. destruct Hn as [Hn Hex].
+      destruct (Hin n Hn) as [n0 [Hn0 ->]]. destruct (clr_new_fields n0) as [F1 [_ [F3 _]]]. rewrite F1.
+      unfold expl in Hex. rewrite F3 in Hex. apply negb_true_iff in Hex.
+      destruct (d_sid n0 =? s) eqn:Es; [exfalso|reflexivity].
+      pose proof (HKF n0 Hn0) as Hn0F.
+      destruct (d_new n0) eqn:En.
+      + apply negb_true_iff in Eks. apply orb_false_iff in Eks. destruct Eks as [Ep _].
+        unfold purge in Ep. rewrite Hhd in Ep. cbn [andb] in Ep. rewrite existsb_false_forall in Ep. specialize (Ep n0 Hn0F).
+        rewrite Es, En in Ep. discriminate.
+      + assert (Hx : In n0 (filter (fun n => is_expl_of s n && negb (d_new n)) f)).
+        { apply filter_In. split; [apply HFf, Hn0F|]. unfold is_expl_of. rewrite Es, Hex, En. reflexivity. }
+        rewrite Hnoold in Hx. exact Hx.
+    - exists F. split; [exact HF|reflexivity].
+  Qed.
+End VnewP.
+
+(* ------------------------------------------------------------------------------------------- *)
+(* edited trees: validation reaches the normal form                                              *)
+(* ------------------------------------------------------------------------------------------- *)
+Lemma edited_node_unfold sch s v d m ch :
+  edited_node sch (DN s v d m ch) =
+  (if is_np_cont sch s then Bool.eqb d (forallb d_dflt ch) else true) &&
+  (if is_inner sch s then edited_lvl sch (Some s) ch else is_nil ch) && forallb (edited_node sch) ch.
+Proof. reflexivity. Qed.
+
+Lemma edited_lvl_nil sch p : edited_lvl sch p [] = true.
+Proof. unfold edited_lvl. cbn [forallb filter is_nil orb andb]. apply forallb_forall. intros s _. reflexivity. Qed.
+
+Lemma forallb_dflt_expl l : forallb d_dflt l = negb (existsb expl l).
+Proof. induction l as [|x l IH]; cbn [forallb existsb]; [reflexivity|]. rewrite IH. unfold expl. destruct (d_dflt x); reflexivity. Qed.
+
+Lemma existsb_filter {A} (q r : A -> bool) l : existsb q (filter r l) = existsb (fun x => r x && q x) l.
+Proof. induction l as [|x l IH]; cbn [filter existsb]; [reflexivity|]. destruct (r x); cbn [existsb andb]; rewrite IH; reflexivity. Qed.
+
+Lemma existsb_ext' {A} (q r : A -> bool) l : (forall x, q x = r x) -> existsb q l = existsb r l.
+Proof. intro H. induction l as [|x l IH]; cbn [existsb]; [reflexivity|]. rewrite H, IH. reflexivity. Qed.
+
+Lemma existsb_map_clr' (q : dnode -> bool) l : (forall n, q (clr_new n) = q n) -> existsb q (map clr_new l) = existsb q l.
+Proof. intro H. induction l as [|x l IH]; cbn [map existsb]; [reflexivity|]. rewrite H, IH. reflexivity. Qed.
+
+Section LevelEdited.
+  Variable sch : schema.
+  Hypothesis Hk : chc_okb sch = true.
+
+  Lemma level_edited : forall fuel path p f r,
+    edited_lvl sch p f = true -> forallb (edited_node sch) f = true ->
+    level fuel true false sch path p f = Ok r ->
+    norm_level sch p (fst r) = true /\ forallb (normal_node sch) (fst r) = true /\ existsb expl (fst r) = existsb expl f.
+  Proof.
+    induction fuel as [|fuel IH]; intros path p f r Hlvl Hnodes H; cbn [level] in H; [discriminate|].
+    apply bind_ok in H. destruct H as [st1 [H1 H]]. apply bind_ok in H. destruct H as [st2 [H2 H]].
+    destruct (vnew_P sch path p f st1 Hlvl H1) as [Hc [Hnn [Hs [Ha [Hcomp [F [HF Eg0]]]]]]].
+    assert (Est1 : st1 = (fst st1, snd st1)) by (destruct st1; reflexivity). rewrite Est1 in H2.
+    destruct (implicit_normal_form_gen sch path p (fst st1) (snd st1) st2 Hk Hc Hnn Hs Ha Hcomp H2) as [Hnl HI].
+    destruct (descend_spec sch (level fuel true false sch) path (fst st2) (snd st2) r H) as [Hsh HF2].
+    assert (Hexpl_sh : forall n, expl (sh sch n) = expl n).
+    { intro n. destruct (sh_fields sch n) as [_ [_ [E3 _]]]. unfold expl. rewrite E3. reflexivity. }
+    (* where the nodes come from *)
+    assert (Horigin : forall n, In n (fst st2) ->
+              (exists n0, In n0 f /\ n = clr_new n0) \/ (d_ch n = [] /\ d_dflt n = true)).
+    { intros n Hn.
+      assert (Hg0 : In n (fst st1) -> exists n0, In n0 f /\ n = clr_new n0).
+      { intro Hx. rewrite Eg0 in Hx. apply in_map_iff in Hx. destruct Hx as [n0 [E Hn0]]. exists n0. split; [|symmetry; exact E].
+        apply filter_In in Hn0. apply (FiltOf_incl _ _ n0 HF), Hn0. }
+      destruct (d_dflt n) eqn:Ed.
+      - destruct (i_dflt sch p _ _ (fst st2) HI n Hn Ed) as [_ [_ [_ [Hx|Hx]]]]; [left; apply Hg0, Hx|right; split; [exact Hx|reflexivity]].
+      - left. apply Hg0. assert (Hx : In n (filter expl (fst st2))) by (apply filter_In; split; [exact Hn|unfold expl; rewrite Ed; reflexivity]).
+        rewrite (i_expl sch p _ _ (fst st2) HI) in Hx. apply filter_In in Hx. apply Hx. }
+    rewrite forallb_forall in Hnodes.
+    split; [rewrite <- (norm_level_sh sch p (fst r)), Hsh, norm_level_sh; exact Hnl|]. split.
+    - apply forallb_forall. intros n' Hn'.
+      destruct (Forall2_In_r _ _ _ HF2 n' Hn') as [n [Hn Hrel]].
+      destruct Hrel as [[Hi [c [Hcc ->]]]|[Hi ->]].
+      + (* inner node *)
+        destruct (Horigin n Hn) as [[n0 [Hn0 ->]]|[Hch Hd]].
+        * pose proof (Hnodes n0 Hn0) as He0. destruct n0 as [s v d m ch]. cbn [clr_new set_ch d_sid d_ch] in *.
+          rewrite edited_node_unfold, Hi in He0. apply andb_true_iff in He0. destruct He0 as [He0 He3].
+          apply andb_true_iff in He0. destruct He0 as [He1 He2].
+          destruct (IH _ _ _ _ He2 He3 Hcc) as [A [B C]].
+          rewrite normal_node_unfold, Hi, A, B, !andb_true_r.
+          destruct (is_np_cont sch s); [|reflexivity]. apply Bool.eqb_prop in He1. rewrite He1, !forallb_dflt_expl, C. apply Bool.eqb_reflx.
+        * destruct n as [s v d m ch]. cbn [set_ch d_sid d_ch d_dflt] in *. subst ch d.
+          destruct (IH _ _ _ _ (edited_lvl_nil sch (Some s)) eq_refl Hcc) as [A [B C]].
+          rewrite normal_node_unfold, Hi, A, B, !andb_true_r.
+          destruct (is_np_cont sch s); [|reflexivity]. rewrite forallb_dflt_expl, C. reflexivity.
+      + (* terminal node: no children *)
+        assert (Hch : d_ch n = []).
+        { destruct (Horigin n Hn) as [[n0 [Hn0 ->]]|[Hch _]]; [|exact Hch].
+          pose proof (Hnodes n0 Hn0) as He0. destruct n0 as [s v d m ch]. cbn [clr_new d_sid d_ch] in *.
+          rewrite edited_node_unfold, Hi in He0. apply andb_true_iff in He0. destruct He0 as [He0 _].
+          apply andb_true_iff in He0. destruct He0 as [_ He2]. apply is_nil_true. exact He2. }
+        destruct n as [s v d m ch]. cbn [d_ch d_sid] in *. subst ch. rewrite normal_node_unfold, Hi. cbn [forallb].
+        unfold is_inner in Hi. unfold is_np_cont. destruct (kind_of sch s) as [[|]| | | |]; try discriminate; reflexivity.
+    - (* explicit nodes *)
+      transitivity (existsb expl (fst st2)).
+      { rewrite <- (existsb_map_sh sch expl (fst r) Hexpl_sh), <- (existsb_map_sh sch expl (fst st2) Hexpl_sh), Hsh. reflexivity. }
+      assert (E1 : existsb expl (fst st2) = existsb expl (fst st1)).
+      { transitivity (existsb (fun _ => true) (filter expl (fst st2))).
+        - rewrite existsb_filter. apply existsb_ext'. intro x. rewrite andb_true_r. reflexivity.
+        - rewrite (i_expl sch p _ _ (fst st2) HI), existsb_filter. apply existsb_ext'. intro x. rewrite andb_true_r. reflexivity. }
+      rewrite E1, Eg0.
+      assert (E2 : existsb expl (map clr_new (filter (keep sch F) F)) = existsb expl F).
+      { rewrite existsb_map_clr' by (intro n; unfold expl; rewrite clr_new_expl; reflexivity).
+        rewrite existsb_filter. apply existsb_ext'. intro x. unfold keep, expl. destruct (d_dflt x); cbn [andb negb]; [apply andb_false_r|reflexivity]. }
+      rewrite E2. destruct HF as [q [EF [Hqn Hqa]]].
+      destruct (existsb d_new f) eqn:Enew.
+      + (* a new node: it is explicit and survives *)
+        apply existsb_exists in Enew. destruct Enew as [x [Hx Hxn]].
+        assert (Hxe : expl x = true).
+        { unfold edited_lvl in Hlvl. apply andb_true_iff in Hlvl. destruct Hlvl as [Hl _]. apply andb_true_iff in Hl. destruct Hl as [Hl _].
+          rewrite forallb_forall in Hl. specialize (Hl x Hx). rewrite Hxn in Hl. cbn [andb] in Hl. exact Hl. }
+        assert (E3 : existsb expl f = true) by (apply existsb_exists; exists x; split; assumption).
+        rewrite E3. apply existsb_exists. exists x. split; [|exact Hxe]. rewrite EF. apply filter_In. split; [exact Hx|apply Hqn; assumption].
+      + rewrite existsb_false_forall in Enew. rewrite EF. f_equal. apply filter_id. intros x _. apply Hqa. exact Enew.
+  Qed.
+End LevelEdited.
+
+Theorem validate_edited_normal sch f g d :
+  chc_okb sch = true -> editedb sch f = true -> f <> [] -> validate_all sch f = Ok (g, d) -> normalb sch g = true.
+Proof.
+  intros Hk He Hne H. unfold editedb in He. apply andb_true_iff in He. destruct He as [He1 He2].
+  unfold validate_all in H. destruct f as [|n0 f0]; [contradiction|].
+  apply bind_ok in H. destruct H as [st [Hs H]]. apply bind_ok in H. destruct H as [gg [Hfin H]]. inversion H; subst gg d. clear H.
+  destruct (level_edited sch Hk _ _ _ _ _ He1 He2 Hs) as [A [B _]].
+  assert (Eg : g = fst st).
+  { unfold final_forest in Hfin. apply bind_ok in Hfin. destruct Hfin as [u [_ Hfin]].
+    apply (map_res_id (final_node sch)); [|exact Hfin].
+    rewrite forallb_forall in B. apply Forall_forall. intros x Hx y Hy. apply (final_node_normal sch x y Hy (B x Hx)). }
+  subst g. unfold normalb. rewrite A, B. reflexivity.
+Qed.
+
+(* freshly parsed canonical data are a special case *)
+Lemma fresh_edited_node sch n : forall p, CanonN sch p n -> fresh_node sch n = true -> edited_node sch n = true /\ d_new n = true /\ d_dflt n = false.
+Proof.
+  induction n as [s v d m ch IH] using dnode_ind'. intros p Hc Hf.
+  rewrite fresh_node_unfold in Hf. apply andb_true_iff in Hf. destruct Hf as [Hf Hf4]. apply andb_true_iff in Hf. destruct Hf as [Hf Hf3].
+  apply andb_true_iff in Hf. destruct Hf as [Hf1 Hf2]. apply negb_true_iff in Hf2. subst d.
+  split; [|split; [exact Hf1|reflexivity]].
+  pose proof (CanonAt_children sch p _ Hc) as Hcc. cbn [d_sid d_ch] in Hcc.
+  rewrite forallb_forall in Hf4. rewrite Forall_forall in IH.
+  assert (Hch : forall x, In x ch -> edited_node sch x = true /\ d_new x = true /\ d_dflt x = false).
+  { intros x Hx. apply (IH x Hx (Some s)); [apply (CanonAt_In sch (Some s) ch x Hcc Hx)|apply Hf4, Hx]. }
+  rewrite edited_node_unfold. apply andb_true_iff. split; [apply andb_true_iff; split|].
+  - destruct (is_np_cont sch s); [|reflexivity]. apply negb_true_iff in Hf3.
+    destruct ch as [|c ch]; [discriminate|]. cbn [forallb]. destruct (Hch c (or_introl eq_refl)) as [_ [_ Hd]]. rewrite Hd. reflexivity.
+  - destruct (is_inner sch s) eqn:Ei.
+    + unfold edited_lvl. apply andb_true_iff. split; [apply andb_true_iff; split|].
+      * apply forallb_forall. intros x Hx. destruct (Hch x Hx) as [_ [_ Hd]]. rewrite Hd, andb_false_r. reflexivity.
+      * apply forallb_forall. intros x Hx. apply existsb_exists. exists (d_sid x). split; [|apply N.eqb_refl].
+        apply (canon_sid sch (Some s) x). apply (CanonAt_In sch (Some s) ch x Hcc Hx).
+      * apply forallb_forall. intros t _. cbv zeta. rewrite (filter_dflt_none ch t (fun x Hx => proj2 (proj2 (Hch x Hx)))). reflexivity.
+    + apply (canon_term_nochild sch p (DN s v false m ch) Hc) in Ei. cbn [d_ch] in Ei. subst ch. reflexivity.
+  - apply forallb_forall. intros x Hx. apply (Hch x Hx).
+Qed.
+
+Lemma fresh_edited sch f : Canon sch f -> freshb sch f = true -> editedb sch f = true.
+Proof.
+  intros Hc Hf. unfold freshb in Hf. rewrite forallb_forall in Hf.
+  assert (Hch : forall x, In x f -> edited_node sch x = true /\ d_new x = true /\ d_dflt x = false).
+  { intros x Hx. apply (fresh_edited_node sch x None); [apply (CanonAt_In sch None f x Hc Hx)|apply Hf, Hx]. }
+  unfold editedb. apply andb_true_iff. split; [|apply forallb_forall; intros x Hx; apply (Hch x Hx)].
+  unfold edited_lvl. apply andb_true_iff. split; [apply andb_true_iff; split|].
+  - apply forallb_forall. intros x Hx. destruct (Hch x Hx) as [_ [_ Hd]]. rewrite Hd, andb_false_r. reflexivity.
+  - apply forallb_forall. intros x Hx. apply existsb_exists. exists (d_sid x). split; [|apply N.eqb_refl].
+    apply (canon_sid sch None x). apply (CanonAt_In sch None f x Hc Hx).
+  - apply forallb_forall. intros t _. cbv zeta. rewrite (filter_dflt_none f t (fun x Hx => proj2 (proj2 (Hch x Hx)))). reflexivity.
 Qed.
 
 (* ------------------------------------------------------------------------------------------- *)
@@ -2637,6 +3536,7 @@ Lemma w1_f8 : validate_all w1_sch w1_freed = Ok (w1_after, w1_d). Proof. vm_comp
 Lemma w1_f9 : normalb w1_sch w1_after = true. Proof. vm_compute. reflexivity. Qed.
 Lemma w1_f10 : strip w1_freed = w1_after. Proof. vm_compute. reflexivity. Qed.
 Lemma w1_f11 : validate_all w1_sch w1_after = Ok (w1_after, []). Proof. vm_compute. reflexivity. Qed.
+Lemma w1_f12 : editedb w1_sch w1_freed = true. Proof. vm_compute. reflexivity. Qed.
 
 (* regression case of the former finding dflt-nested-case-leftover (fixed by 357db45): after e is freed validation removes
    the left-over defaults d and y, the result is the normal form of the explicit content w and a fixpoint *)
@@ -2668,6 +3568,7 @@ Lemma w2_f5 : canonb w2_sch None w2_freed = true. Proof. vm_compute. reflexivity
 Lemma w2_f6 : flag_soundb w2_sch w2_freed = true. Proof. vm_compute. reflexivity. Qed.
 Lemma w2_f7 : validate_all w2_sch w2_freed = Ok (w2_freed, []). Proof. vm_compute. reflexivity. Qed.
 Lemma w2_f8 : normalb w2_sch w2_freed = false. Proof. vm_compute. reflexivity. Qed.
+Lemma w2_f9 : editedb w2_sch w2_freed = false. Proof. vm_compute. reflexivity. Qed.
 
 Lemma w2_facts :
   schema_okb w2_sch = true /\ chc_okb w2_sch = true /\
